@@ -366,6 +366,9 @@ func mutationFamilyBuild(n int) []mutation {
 			for _, v := range []int{0x00, 0x7f, 0x80, 0xff} {
 				ms = append(ms, mutation{"byte", o, v})
 			}
+		} else {
+			// every offset gets at least the saturating value (length prefixes / counts anywhere in the file)
+			ms = append(ms, mutation{"byte", o, 0xff})
 		}
 	}
 	for o := 0; o < n && o < 256; o++ {
